@@ -50,9 +50,17 @@ def costs(points):
     return out, (pre, tim)
 
 
-def children(points, plen, K, T):
+def children(points, plen, K, T, F=None):
+    """F (optional): bound on 'free' deviations - choosing another than the first enabled thread where the running thread
+    cannot continue.  Unbounded by default; F=0 leaves only the default hand-over order at blocking points."""
     cs, _ = costs(points)
     kids = []
+    free = 0
+    frees = []
+    for p in points:
+        frees.append(free)
+        if not (p.choice == p.fire_index and p.fire_index >= 0) and not p.cur_enabled and p.choice != 0:
+            free += 1
     for i in range(plen, len(points)):
         p = points[i]
         pre, tim = cs[i]
@@ -63,6 +71,8 @@ def children(points, plen, K, T):
             elif p.cur_enabled:
                 if pre + 1 > K:
                     continue
+            elif F is not None and frees[i] + 1 > F:
+                continue
             choices = [q.choice for q in points[:i]] + [alt]
             expect = [q.nopts for q in points[:i + 1]]
             kids.append((choices, expect))
@@ -82,6 +92,7 @@ def explore_chunk(args):
         K, T = bounds["K"], bounds.get("T", 0)
         stack = [prefix]
         n = 0
+        livelocks = 0
         obs_seen = set()
         if spec not in _WARM:
             _WARM.add(spec)
@@ -127,7 +138,16 @@ def explore_chunk(args):
                      "preemptions": pre, "timer_deviations": tim},
                     "%s [harness %s, %d preemption(s), %d timer deviation(s), schedule %s]" % (detail, label, pre, tim, sch),
                     rank=(pre + tim) * 100000 + len(sch))
-            kids = children(ex.points, len(choices), K, T)
+            if ex.status == "livelock" and ex.viols:
+                # executions that never terminate run up to the forced-timer limit and are ~100 times longer than ordinary ones:
+                # once a harness has produced 12 of them in a chunk the verdict is known and its subtree is dropped (reported)
+                livelocks += 1
+                if livelocks >= 12:
+                    part.notes["cut:" + label] = "subtree dropped after %d non-terminating executions (verdict already VIOLATED)" % livelocks
+                    part.counters["subtrees_cut_after_livelocks"] = part.counters.get("subtrees_cut_after_livelocks", 0) + 1
+                    stack = []
+                    break
+            kids = children(ex.points, len(choices), K, T, bounds.get("F"))
             # depth-first, lexicographically smallest alternative first
             stack.extend(reversed(kids))
     except sched.HarnessError as ex:
@@ -230,15 +250,20 @@ def explore_adaptive(harnesses, levels, budget, nproc=None, chunk=400, hard_cap=
     maxlevel = {}
     partial = {}
 
+    extra = {}
+    cut = set()
+
     def push(spec, label, li, prefix=([], [])):
         outstanding[(label, li)] = outstanding.get((label, li), 0) + 1
         seq[0] += 1
-        heapq.heappush(queue, (li, seq[0], (spec, dict(levels[li], level=li), prefix, chunk, label)))
+        heapq.heappush(queue, (li, seq[0], (spec, dict(levels[li], level=li, **extra.get(label, {})), prefix, chunk, label)))
 
     for h in harnesses:
         spec, label = h[0], h[1]
         if len(h) > 2:
             maxlevel[label] = h[2]
+        if len(h) > 3:
+            extra[label] = dict(h[3])  # further bounds of this harness, e.g. {"F": 0}
         push(spec, label, 0)
 
     def account(part, leftover, args):
@@ -251,6 +276,10 @@ def explore_adaptive(harnesses, levels, budget, nproc=None, chunk=400, hard_cap=
         total.merge(part)
         outstanding[key] -= 1
         cap = hard_cap if hard_cap is not None else 4 * budget
+        if ("cut:" + label) in part.notes:
+            cut.add(label)
+        if label in cut:
+            leftover = []
         if leftover or key in partial:
             if counts[key] >= cap and li > 0:
                 # the level turned out larger than predicted: it is abandoned and NOT reported as completed
@@ -263,13 +292,14 @@ def explore_adaptive(harnesses, levels, budget, nproc=None, chunk=400, hard_cap=
                 levels[li]["K"], levels[li].get("T", 0), counts[key])
             return
         if outstanding[key] == 0:
-            done_bounds[label] = "K=%d,T=%d (%d executions)" % (levels[li]["K"], levels[li].get("T", 0), counts[key])
+            done_bounds[label] = "K=%d,T=%d%s (%d executions)" % (levels[li]["K"], levels[li].get("T", 0),
+                                                                   "".join(",%s=%s" % kv for kv in sorted(extra.get(label, {}).items())), counts[key])
             if li + 1 < len(levels) and not part.errors:
                 # predicted size of the next level: this level times the growth seen between the last two levels
                 prev = counts.get((label, li - 1), 0)
                 growth = max(3.0, float(counts[key]) / prev) if prev else 8.0
                 predicted = counts[key] * growth
-                if predicted <= budget and li + 1 <= maxlevel.get(label, len(levels)) and (global_budget is None or ran[0] < global_budget):
+                if predicted <= budget and li + 1 <= maxlevel.get(label, len(levels)) and (global_budget is None or ran[0] < global_budget) and label not in cut:
                     push(spec, label, li + 1)
 
     if nproc == 1:
